@@ -6,7 +6,7 @@ import os
 import re
 import subprocess
 
-from .run import VERIF, REPO, pkg_name, parse_harnesses
+from .run import VERIF, REPO, MODULE, pkg_name, parse_harnesses
 
 XC = 'libs/cryptonote/xcrypto'
 
@@ -65,13 +65,39 @@ def native_overlay(workdir, pkgdir, harness_files, extra=None):
     apipath = os.path.join(workdir, 'zz_verif_api_native.go')
     open(apipath, 'w').write(api)
     names = []
+    targets = {}
+    setters = []
     for hf in harness_files:
-        names += [n for (n, _, _) in parse_harnesses(hf)]
+        for (n, _, stubs) in parse_harnesses(hf):
+            names.append(n)
+            lines = []
+            for tgt, stubfn in sorted(stubs.items()):
+                if tgt not in targets:
+                    targets[tgt] = len(targets)
+                lines.append('zzverifhooks.H[%d] = %s' % (targets[tgt], stubfn))
+            if lines:
+                setters.append('\t"%s": func() { %s },' % (n, '; '.join(lines)))
     tst = open(os.path.join(tdir, 'replay_test.go.tmpl')).read().replace('PKGNAME', name)
     tst = tst.replace('HARNESSES', '\n'.join('\t"%s": %s,' % (n, n) for n in names))
+    tst = tst.replace('STUBSETTERS', '\n'.join(setters))
+    stub_ov = {}
+    if targets:
+        tst = tst.replace('HOOKIMPORT', '\t"%s/zzverifhooks"' % MODULE)
+        tst = tst.replace('HOOKCLEAR', '\tfor i := range zzverifhooks.H {\n\t\tzzverifhooks.H[i] = nil\n\t}')
+        spec = dict(repo=REPO, module=MODULE, out=workdir,
+                    stubs=[dict(target=t, index=i) for t, i in targets.items()])
+        sp = os.path.join(workdir, 'stubgen.json')
+        json.dump(spec, open(sp, 'w'))
+        p = subprocess.run([os.path.join(VERIF, 'bin', 'stubgen'), sp], stdout=subprocess.PIPE, stderr=subprocess.PIPE)
+        if p.returncode != 0:
+            raise RuntimeError('stubgen failed: ' + p.stderr.decode())
+        stub_ov = json.loads(p.stdout.decode())
+    else:
+        tst = tst.replace('HOOKIMPORT', '').replace('HOOKCLEAR', '')
     tpath = os.path.join(workdir, 'zz_verif_replay_test.go')
     open(tpath, 'w').write(tst)
     ov = dict(xcrypto_overlay(workdir))
+    ov.update(stub_ov)
     ov[os.path.join(REPO, pkgdir, 'zz_verif_api_native.go')] = apipath
     ov[os.path.join(REPO, pkgdir, 'zz_verif_replay_test.go')] = tpath
     for i, h in enumerate(harness_files):
